@@ -116,6 +116,7 @@ type Engine struct {
 	MaxSwitches    int
 	selectExplore  bool
 	permuteMaps    bool
+	WantWitness    bool // set by the driver per path: keep this path, if it passes, for the native cross-check
 	mapAddrs       map[*omap]int
 	wgs            map[*value]*wgState
 	addrs          map[*value]int
@@ -984,11 +985,9 @@ func (e *Engine) RunPath(fn *ssa.Function, prefix []Decision) (res PathResult, a
 	if len(e.Stats.Samples) < 4 && res.Status == "ok" {
 		e.Stats.Samples = append(e.Stats.Samples, e.sample())
 	}
-	if res.Status == "ok" && len(e.violations) == 0 && !e.cutUnknown && !e.schedExplore && !e.selectExplore {
-		// a spread of passing paths (the 1st, 2nd, 4th, 8th ... completed one)
-		e.Stats.okSeen++
-		n := e.Stats.okSeen
-		if n&(n-1) == 0 && len(e.Stats.Witnesses) < MaxWitnesses {
+	if e.WantWitness && res.Status == "ok" && len(e.violations) == 0 && !e.cutUnknown && !e.schedExplore && !e.selectExplore {
+		// (the driver asks for a spread of paths: the 1st, 2nd, 4th, 8th ... started one and every 97th)
+		if len(e.Stats.Witnesses) < MaxWitnesses {
 			before := len(e.violations)
 			e.recordViolation("", "", e.diverseModel())
 			if len(e.violations) > before {
